@@ -31,6 +31,7 @@ class H:
     vectors: List[Dict[str, Any]] = field(default_factory=list)  # extra concrete vectors for model validation
     engine: str = "A"
     reals_only: bool = True
+    lazy_format: bool = False  # format(symbolic int) stays a lazy symbolic string (see engine.sym._patch_lazy_format)
 
 
 _KF_CACHE: Optional[dict] = None
